@@ -62,7 +62,7 @@ DIRECTED = [
     ("wait-any", IDS + "mbox 3\nactor s0.1 s1.2 s2.3 s0.4\nactor r0 a\nactor r0 r1 r2 a a a\n", 5, 40),
     ("test-any", IDS + "mbox 2\nactor s1.2 s1.3 s0.1\nactor z r0 y r1 r1 y y y\n", 6, 40),
     # the sender goes first (semaphore): test_any over {receive never matched, receive matched}
-    ("test-any-second-ready", IDS + "sem 0\nmbox 2\nactor s1.2 V0\nactor P0 r0 r1 y\n", 2, 20),
+    ("test-any-second-ready", IDS + "sem 0\nmbox 2\nactor s1.2 V0\nactor P0 r0 r1 y\n", 4, 20),
     ("iprobe", IDS + "tag 77\nmbox 2\nactor s1.5\nactor b1.0 b1.1 b0.0 r1\n", 4, 20),
     ("actors", IDS + "actor K2 J1 j2 Y\nactor Q3.9 Q0.0 X\ndyn Y Q1.2\n", 4, 30),
 ]
